@@ -11,6 +11,7 @@ import copy
 import json
 import os
 import random
+import re
 
 from sim.runner import H
 from sim import child, gen, progtree
@@ -59,7 +60,7 @@ def build_worlds(case):
         text = list(lines)
         if rel == 'main.asm':
             text += table
-        files[f'{PDIR}/{rel}'] = '\n'.join(text) + '\n'
+        files[f'{PDIR}/{rel}'] = ('\n'.join(text) + '\n') if text else ''       # no lines: a file of zero bytes
     for rel, lines in case.get('extra_files', {}).items():
         files[f'{PDIR}/{rel}'] = '\n'.join(lines) + '\n'
     pre_links = {f'{PDIR}/{rel}': f'{PDIR}/{tgt}' for rel, tgt in case.get('extra_links', {}).items()}
@@ -350,12 +351,14 @@ def negatives(case, rnd, tg):
         out.append(c)
     # double inclusion where the first inclusion was made by a deeper file that has already finished; the file
     # included twice defines no label, so only the inclusion bookkeeping can reject it
-    for via_sibling in (False, True, 'respelled'):
+    for via_sibling in (False, True, 'respelled', 'empty'):
         c = clone()
         m = c['tree']
         d = rnd.choice(['', 'inc', 'lib/sub'])
         tbl = {'name': 'tbl.asm', 'dir': d, 'idx': 90,
                'items': [{'t': 'line', 's': '  .byte 1, 2, 3', 'r': '  .byte 1, 2, 3'}]}
+        if via_sibling == 'empty':
+            tbl['items'] = []          # a file of zero bytes: nothing to assemble, but still a file included twice
         nest = {'name': 'nest.asm', 'dir': rnd.choice(['', 'inc']), 'idx': 91,
                 'items': [{'t': 'line', 's': '  .byte $11', 'r': '  .byte $11'}, {'t': 'inc', 'file': tbl},
                           {'t': 'line', 's': '  .byte $12', 'r': '  .byte $12'}]}
@@ -375,7 +378,8 @@ def negatives(case, rnd, tg):
         else:
             m['items'].insert(pos + 1 + rnd.randrange(0, len(m['items']) - pos), again)
         c['inc_dirs'] = sorted(set(progtree.include_dirs(m)))
-        c['kind'] = 'neg-double-inclusion-after-nested' + ({True: '-via-sibling', 'respelled': '-respelled'}.get(via_sibling, ''))
+        c['kind'] = 'neg-double-inclusion-after-nested' + ({True: '-via-sibling', 'respelled': '-respelled',
+                                                            'empty': '-of-a-zero-byte-file'}.get(via_sibling, ''))
         out.append(c)
     if inc_files:
         # the same NAME in a second search directory, this time as a symbolic link to the first file (same inode):
@@ -416,6 +420,14 @@ def negatives(case, rnd, tg):
     m['items'].insert(rnd.randrange(2, len(m['items']) + 1), {'t': 'inc', 'file': gb})
     c['inc_dirs'] = sorted(set(progtree.include_dirs(m)))
     c['kind'] = 'neg-cycle-through-include-guard'
+    out.append(c)
+    # missing file, although files whose names only add an extension to the include's name exist
+    c = clone()
+    ext = (re.search(r'"?extension"?\s*:\s*"?(\w+)', case['isa_text']) or [None, 'asm'])[1]
+    c['extra_files'] = {f'defs9.{e}': ['  .byte $55'] for e in {'asm', 's', ext}}
+    c['tree']['items'].insert(rnd.randrange(0, len(c['tree']['items']) + 1),
+                              {'t': 'line', 's': '#include "defs9"', 'r': ''})
+    c['kind'] = 'neg-missing-file-extensionless-name'
     out.append(c)
     # missing file
     c = clone()
